@@ -430,8 +430,8 @@ def main():
     # of 1 and 3; thorough: two accepted + one refused with every node campaigning (MC_Raft3_conf_full.cfg) and three voters of
     # which 2 and 3 are removed (MC_Raft3_conf_full3.cfg)
     MC_CC_CFG, MC_CC_CFG2 = ("MC_Raft3_conf.cfg", "MC_Raft3_conf_refuse.cfg") if QUICK else ("MC_Raft3_conf_full.cfg", "MC_Raft3_conf_full3.cfg")
-    f_mc_cc = pool.submit(tlc_model_check, MC_CC_CFG, 3 if QUICK else 8, 600 if QUICK else 4000)
-    f_mc_cc2 = pool.submit(tlc_model_check, MC_CC_CFG2, 2 if QUICK else 8, 600 if QUICK else 4000)
+    f_mc_cc = pool.submit(tlc_model_check, MC_CC_CFG, 3 if QUICK else 4, 600 if QUICK else 5000)
+    f_mc_cc2 = pool.submit(tlc_model_check, MC_CC_CFG2, 2 if QUICK else 4, 600 if QUICK else 5000)
 
     # ---- 2. TLC-generated behaviours
     sim_jobs = []
